@@ -278,6 +278,11 @@ func runC03(args []string) {
 			// large batches: the window chosen by BatchScalarMultiplication grows with n (the maximum is
 			// reached a little below 4000 scalars); sampled indices are judged
 			big := []int{4500}
+			if gn == "G1" || !slow {
+				// far beyond every threshold of the window search (a search that runs one window too far only shows
+				// above 24576 scalars on the 255-bit scalar fields)
+				big = append(big, 30000)
+			}
 			if *tier == "thorough" {
 				big = []int{600, 1500, 4500, 40000}
 			}
